@@ -92,11 +92,7 @@ RegroupKey(cs, ps) ==
                 got == NormT(got0, TempsOf(group)) IN
             IF want[1] = "nil" \/ got[1] = "nil" THEN "" ELSE Diff(want, got)
 \* does a convertible function occur inside the arguments of a built-in one?
-RECURSIVE HasConv(_), ConvInBuiltin(_)
-HasConv(tr) == CASE tr[1] = "call" -> tr[2] \in Convertible \/ \E k \in 1..Len(tr[3]) : HasConv(tr[3][k])
-                 [] tr[1] = "idx" -> \E k \in 1..Len(tr[3]) : HasConv(tr[3][k])
-                 [] tr[1] = "un" -> HasConv(tr[3]) [] tr[1] = "par" -> HasConv(tr[2])
-                 [] tr[1] = "bin" -> HasConv(tr[3]) \/ HasConv(tr[4]) [] OTHER -> FALSE
+RECURSIVE ConvInBuiltin(_)
 ConvInBuiltin(tr) ==
   CASE tr[1] = "call" -> (tr[2] \notin Convertible /\ \E k \in 1..Len(tr[3]) : HasConv(tr[3][k])) \/ \E k \in 1..Len(tr[3]) : ConvInBuiltin(tr[3][k])
     [] tr[1] = "idx" -> \E k \in 1..Len(tr[3]) : ConvInBuiltin(tr[3][k])
@@ -141,7 +137,7 @@ Verdict(cs) ==
        ELSE LET e == SrcExpr(cs, ps)
                 sit == IF e[1] = "nil" THEN "" ELSE Situation(e) IN
        IF vd.clause = "parses" THEN [vd EXCEPT !.key = @ \o SrcSituation(cs, ps)]
-       ELSE IF cs.slot = "a1p" /\ vd.clause = "obs" THEN [vd EXCEPT !.key = @ \o ":src-item=" \o (IF e[1] \in {"bin", "un", "par"} THEN "operator-expression" ELSE e[1])]
+       ELSE IF cs.slot = "a1p" /\ vd.clause = "obs" THEN vd
        ELSE LET rk == RegroupKey(cs, ps) IN
             IF rk = "" THEN vd
             ELSE [vd EXCEPT !.clause = "regroup", !.key = "regroup:" \o (IF sit # "" THEN "src=" \o sit ELSE rk), !.detail = rk \o " | " \o vd.key \o " | " \o @]
